@@ -1090,6 +1090,126 @@ def _fold_forwarders(work: Repo) -> int:
     return count
 
 
+def _unbox_record_returns(work: Repo) -> int:
+    """def _parse(...) -> _Parsed: ... return _Parsed(options=o, flags=f)        ->   return (o, f)
+       parsed = _parse(args) ... parsed.options ... parsed.flags               ->   parsed__options, parsed__flags = _parse(args) ...
+    A private module-level function whose every return builds a fresh plain record (NamedTuple / dataclass without custom
+    construction) of the same module, called only in the form `v = f(...)` with `v` then read field by field (or already
+    unpacked like a tuple): the record never exists as an object anybody could observe, it is the tuple of its fields."""
+    count = 0
+    for mod in work.modules.values():
+        funcs = {n.name: n for n in mod.tree.body if isinstance(n, ast.FunctionDef)}
+        classes = {n.name: n for n in mod.tree.body if isinstance(n, ast.ClassDef)}
+
+        def fields_of(c: ast.ClassDef) -> list[str] | None:
+            decos = [ast.unparse(d) for d in c.decorator_list]
+            bases = [ast.unparse(b) for b in c.bases]
+            if not (any("dataclass" in d for d in decos) or any(b.endswith("NamedTuple") for b in bases)):
+                return None
+            if any(isinstance(st, (ast.FunctionDef, ast.AsyncFunctionDef)) for st in c.body):
+                return None  # methods / properties could be called on the record
+            return [st.target.id for st in c.body if isinstance(st, ast.AnnAssign) and isinstance(st.target, ast.Name)]
+
+        for F in funcs.values():
+            if not F.name.startswith("_") or F.name.startswith("__") or F.decorator_list or _is_generator(F):
+                continue
+            rets = [n for n in walk_no_nested(F) if isinstance(n, ast.Return)]
+            if not rets:
+                continue
+            rec = None
+            plans = []
+            ok = True
+            for r in rets:
+                v = r.value
+                if not (isinstance(v, ast.Call) and isinstance(v.func, ast.Name) and v.func.id in classes):
+                    ok = False
+                    break
+                if rec is None:
+                    rec = v.func.id
+                if v.func.id != rec:
+                    ok = False
+                    break
+                flds = fields_of(classes[rec])
+                if flds is None or any(isinstance(a, ast.Starred) for a in v.args) or any(k.arg is None for k in v.keywords):
+                    ok = False
+                    break
+                m: dict[str, ast.expr] = {}
+                for i, a in enumerate(v.args):
+                    if i < len(flds):
+                        m[flds[i]] = a
+                for k in v.keywords:
+                    m[k.arg] = k.value
+                if set(m) != set(flds) or len(v.args) > len(flds):
+                    ok = False
+                    break
+                plans.append((r, [m[f] for f in flds]))
+            if not ok or rec is None:
+                continue
+            flds = fields_of(classes[rec])
+            # every mention of F, anywhere in the package
+            sites = []
+            for m2 in work.modules.values():
+                for holder in [n for n in ast.walk(m2.tree) if isinstance(n, (ast.FunctionDef, ast.AsyncFunctionDef, ast.Module))]:
+                    body_nodes = list(walk_no_nested(holder)) if not isinstance(holder, ast.Module) else [x for st in holder.body if not isinstance(st, (ast.FunctionDef, ast.AsyncFunctionDef, ast.ClassDef)) for x in ast.walk(st)]
+                    for x in body_nodes:
+                        if isinstance(x, ast.Name) and x.id == F.name and isinstance(x.ctx, ast.Load):
+                            if m2 is not mod and not any(isinstance(i_, ast.ImportFrom) and any(a.name == F.name for a in i_.names) for i_ in ast.walk(m2.tree)):
+                                continue  # a different function of the same name in another module
+                            sites.append((m2, holder, x))
+            rewrites = []
+            for m2, holder, x in sites:
+                if m2 is not mod or isinstance(holder, ast.Module):
+                    ok = False
+                    break
+                call = parent_of(holder, x)
+                if not (isinstance(call, ast.Call) and call.func is x):
+                    ok = False
+                    break
+                st = parent_of(holder, call)
+                if not (isinstance(st, ast.Assign) and st.value is call and len(st.targets) == 1):
+                    ok = False
+                    break
+                t = st.targets[0]
+                if isinstance(t, (ast.Tuple, ast.List)) and len(t.elts) == len(flds) and not any(isinstance(e, ast.Starred) for e in t.elts) \
+                        and any(b.endswith("NamedTuple") for b in [ast.unparse(b_) for b_ in classes[rec].bases]):
+                    continue  # already unpacked like a tuple
+                if not isinstance(t, ast.Name):
+                    ok = False
+                    break
+                v = t.id
+                own = list(walk_no_nested(holder))
+                if sum(1 for y in own if isinstance(y, ast.Name) and y.id == v and isinstance(y.ctx, (ast.Store, ast.Del))) != 1:
+                    ok = False
+                    break
+                if any(isinstance(y, ast.Name) and y.id == v for n2 in ast.walk(holder) if n2 is not holder and isinstance(n2, (ast.FunctionDef, ast.AsyncFunctionDef, ast.Lambda)) for y in ast.walk(n2)):
+                    ok = False
+                    break
+                reads = [y for y in own if isinstance(y, ast.Name) and y.id == v and isinstance(y.ctx, ast.Load)]
+                attrs = []
+                for y in reads:
+                    pa = parent_of(holder, y)
+                    if isinstance(pa, ast.Attribute) and pa.value is y and isinstance(pa.ctx, ast.Load) and pa.attr in flds:
+                        attrs.append(pa)
+                    else:
+                        ok = False
+                if not ok:
+                    break
+                rewrites.append((holder, st, v, attrs))
+            if not ok or not sites:
+                continue
+            for r, exprs in plans:
+                r.value = ast.copy_location(ast.Tuple(elts=exprs, ctx=ast.Load()), r.value)
+            for holder, st, v, attrs in rewrites:
+                st.targets = [ast.copy_location(ast.Tuple(elts=[ast.Name(id=f"{v}__{f}", ctx=ast.Store()) for f in flds], ctx=ast.Store()), st.targets[0])]
+                for a in attrs:
+                    _replace_node(holder, a, ast.copy_location(ast.Name(id=f"{v}__{a.attr}", ctx=ast.Load()), a))
+            F.returns = None
+            count += 1
+        if count:
+            ast.fix_missing_locations(mod.tree)
+    return count
+
+
 def _expand_dict_kwargs(fn) -> int:
     """shared = {"width": width, "semantic": semantic}; f(x, **shared)   ->   f(x, width=width, semantic=semantic)
     for a local bound once to a dict literal with constant string keys whose values are names never rebound in the function
@@ -1777,6 +1897,10 @@ def build_inlined_repo(root=None, keep: set[str] | None = None) -> tuple[Repo, d
         folded = _fold_forwarders(work)
     except Exception:  # noqa: BLE001 - a normalisation that cannot be applied is simply not applied
         folded = 0
+    try:
+        folded += _unbox_record_returns(work)
+    except Exception:  # noqa: BLE001
+        pass
     if folded:
         for mod in work.modules.values():
             ast.fix_missing_locations(mod.tree)
